@@ -59,6 +59,12 @@ func (t *concurrentTxn) Has(ctx context.Context, key []byte) (bool, error) {
 	return t.Txn.Has(ctx, key)
 }
 
+func (t *concurrentTxn) Iterator(ctx context.Context, opts corekv.IterOptions) (corekv.Iterator, error) {
+	t.mu.Lock()
+	defer t.mu.Unlock()
+	return t.Txn.Iterator(ctx, opts)
+}
+
 func (t *concurrentTxn) Set(ctx context.Context, key []byte, value []byte) error {
 	t.mu.Lock()
 	defer t.mu.Unlock()
